@@ -135,6 +135,14 @@ def gmrf_structure(c, order, N, bc, two_d=False):
     S = g.sqrtprec; S = S.toarray() if hasattr(S, 'toarray') else np.asarray(S)
     target = 2.0 * g._prec_op.get_matrix().toarray()
     c.holds('sqrtprecT_sqrtprec_is_prec_times_P', bool(np.allclose(S.T @ S, target, atol=1e-6)), note=f"max dev {np.abs(S.T @ S - target).max():.3g}")
+    # history: the precision parameter is re-assigned (public setter) after sqrtprec has been read; the structure must follow it
+    mean = np.arange(1, n + 1, dtype=float); g.mean = mean; _ = g.sqrtprecTimesMean
+    g.prec = 9.0
+    S2 = g.sqrtprec; S2 = S2.toarray() if hasattr(S2, 'toarray') else np.asarray(S2)
+    target2 = 9.0 * g._prec_op.get_matrix().toarray()
+    c.holds('after_reassigning_prec:sqrtprecT_sqrtprec_is_prec_times_P', bool(np.allclose(S2.T @ S2, target2, atol=1e-6)), note=f"max dev {np.abs(S2.T @ S2 - target2).max():.3g}")
+    sm = np.asarray(g.sqrtprecTimesMean).ravel()
+    c.holds('after_reassigning_prec:sqrtprecTimesMean_is_sqrtprec_times_mean', bool(np.allclose(sm, S2 @ mean, atol=1e-6)))
 
 
 def _mrf(c, kind, N, bc, order=1, two_d=False):
